@@ -59,7 +59,14 @@ func loadEngine(repo string, overlay map[string][]byte, tags string) (*Engine, t
 		BuildFlags: []string{"-tags=" + tags},
 		Env:        append(os.Environ(), "GOFLAGS=-mod=readonly", "GOPROXY=off", "GOTOOLCHAIN=local+path")}
 	// keep GOSUMDB/GOTOOLCHAIN as the user's so that the toolchain switch for /repo works
-	cfg.Env = append(os.Environ(), "GOFLAGS=-mod=readonly", "GOPROXY=off")
+	var env []string
+	for _, kv := range os.Environ() {
+		if strings.HasPrefix(kv, "GOTOOLCHAIN=") || strings.HasPrefix(kv, "GOSUMDB=") || strings.HasPrefix(kv, "GOFLAGS=") || strings.HasPrefix(kv, "GOPROXY=") {
+			continue
+		}
+		env = append(env, kv)
+	}
+	cfg.Env = append(env, "GOFLAGS=-mod=readonly", "GOPROXY=off")
 	pkgs, err := packages.Load(cfg, "./leader")
 	if err != nil {
 		fmt.Fprintln(os.Stderr, "load error:", err)
@@ -272,7 +279,7 @@ func (e *Engine) runPath(s *Solver, fn *ssa.Function, prefix []int, wantWitness 
 		cells: map[string]Val{}, cellVC: map[string]VC{}, mus: map[string]*Mutex{}, wgs: map[string]int{}, wgVC: map[string]VC{},
 		onces: map[string]bool{}, globals: map[*ssa.Global]*Obj{}, funcs: map[*ssa.Function]bool{}, covers: map[string]bool{},
 		budgets: map[string]int{}, counts: map[string]int{}, names: map[string]int{}, recs: map[string]*Rec{},
-		lockEdges: map[string]string{}, races: map[string]string{}, stepBudget: e.stepBudget}
+		lockEdges: map[string]string{}, races: map[string]string{}, stepBudget: e.stepBudget, strVars: map[string]*strVarInfo{}, declared: map[string]bool{}}
 	defer func() {
 		if r := recover(); r != nil {
 			if ee, ok := r.(engineError); ok {
